@@ -24,7 +24,7 @@ RULE = (
 )
 ASSUMPTIONS = [
     "initialized_size is only assigned values <= size (the property's precondition)",
-    "content edits keep the length (in-place item / same-length slice assignment)",
+    "content edits keep the length (in-place item / same-length slice assignment) or replace the contents by bytes / bytearray no longer than size",
 ]
 REQUIRED_TAGS = {
     "quick": ["shrink-below-stored", "block-beyond-stored", "ctor-invalid", "op:saveload"],
@@ -175,17 +175,24 @@ def run_case(case):
                     del m.data[v:]
                 bi.initialized_size = v
             elif name == "byte":
-                if m.data:
+                if m.data and isinstance(bi.contents, bytearray):
                     i = op["i"] % len(m.data)
                     m.data[i] = op["b"] % 256
                     bi.contents[i] = op["b"] % 256
             elif name == "slice":
-                if m.data:
+                if m.data and isinstance(bi.contents, bytearray):
                     i = op["i"] % len(m.data)
                     j = min(len(m.data), i + op["k"] % 5)
                     fill = bytes([(op["b"] + x) % 256 for x in range(j - i)])
                     m.data[i:j] = fill
                     bi.contents[i:j] = fill
+            elif name == "setcontents":
+                # the whole contents replaced by assignment (immutable bytes or a
+                # bytearray), never longer than the declared size
+                new = bytes((op["b"] + x) % 256 for x in range(min(op["n"], m.size)))
+                bi.contents = new if op.get("imm") else bytearray(new)
+                m.data = bytearray(new)
+                res.tag("contents-assigned-" + ("bytes" if op.get("imm") else "bytearray"))
             elif name == "boff":
                 if blocks:
                     k = op["k"] % len(blocks)
@@ -262,6 +269,7 @@ def strategy():
         "isize": progs.op("isize", n=small),
         "byte": progs.op("byte", i=st.integers(0, 30), b=st.integers(0, 255)),
         "slice": progs.op("slice", i=st.integers(0, 30), k=st.integers(0, 4), b=st.integers(0, 255)),
+        "setcontents": progs.op("setcontents", n=st.integers(0, 12), b=st.integers(0, 255), imm=st.booleans()),
         "boff": progs.op("boff", k=st.integers(0, 3), n=st.one_of(st.integers(0, 14), st.sampled_from([1 << 32, BIG - 3]))),
         "bsize": progs.op("bsize", k=st.integers(0, 3), n=st.one_of(st.integers(0, 9), st.sampled_from([1 << 32, BIG]))),
         "addr": progs.op("addr", a=addr),
